@@ -44,4 +44,6 @@ run C36 && mut C36 protocol/chainlib/chain_fetcher.go '	relayData.SeenBlock = 0 
 run C29 && mut C29 protocol/rpcprovider/rewardserver/reward_server.go 'if cuSumStored >= proof.CuSum {' 'if cuSumStored <= proof.CuSum {'
 run C33 && mut C33 protocol/relaycore/relay_processor.go 'if nilReplies >= crossValidationSize && maxCount < crossValidationSize {' 'if nilReplies >= crossValidationSize && maxCount <= crossValidationSize {'
 run C27 && mut C27 protocol/lavasession/provider_session_manager.go 'if singleProviderSession.RelayNum >= relayNumber {' 'if singleProviderSession.RelayNum+1 > relayNumber {'
+run C03 && mut C03 x/pairing/keeper/msg_server_relay_payment.go 'if k.IsUniqueEpochSessionExists(ctx, epochStart, relay.Provider, project.Index, relay.SpecId, relay.SessionId) {' 'if k.IsUniqueEpochSessionExists(ctx, epochStart, relay.Provider, project.Index, relay.SpecId, relay.SessionId+1) {'
+run C05 && mut C05 x/pairing/keeper/msg_server_relay_payment.go 'if relay.Epoch > ctx.BlockHeight() || relay.Epoch < 0 {' 'if relay.Epoch > ctx.BlockHeight()+20 || relay.Epoch < 0 {'
 exit 0
